@@ -528,6 +528,124 @@ func c03IntOracle(c *Ctx, text []byte, full bool) {
 	}
 }
 
+// ---------------------------------------------------------------------------------------
+// byte-string fields at boundary lengths: every hashed byte string of every entry is set to a string
+// of length L and one byte is flipped at the first, middle and last position; the id must change.
+// Base and last-flip variants are also op lines, so the model (which hashes the whole string)
+// is compared with the implementation at every boundary length.
+
+var c03StrLens = []int{0, 1, 63, 64, 65, 126, 127, 128, 129, 255, 256, 257, 16383, 16384}
+
+type c03StrField struct {
+	name string
+	set  func(t *types.TxData, v []byte)
+}
+
+func c03SetIssuance(t *types.TxData, i int, f func(ii *types.IssuanceInput)) {
+	ii := t.Inputs[i].TypedInput.(*types.IssuanceInput)
+	fresh := types.NewIssuanceInput(ii.Nonce, ii.Amount, ii.IssuanceProgram, ii.Arguments, ii.AssetDefinition).TypedInput.(*types.IssuanceInput)
+	fresh.VMVersion = ii.VMVersion
+	f(fresh)
+	t.Inputs[i].TypedInput = fresh
+}
+
+// fields of c03StrBaseTx: inputs [spend, veto, issuance, coinbase], outputs [original, vote]
+func c03StrFields() []c03StrField {
+	return []c03StrField{
+		{"in.spend.controlprogram", func(t *types.TxData, v []byte) { spendCommitmentOf(t.Inputs[0]).ControlProgram = v }},
+		{"in.spend.statedata[0]", func(t *types.TxData, v []byte) { spendCommitmentOf(t.Inputs[0]).StateData = [][]byte{v, {9}} }},
+		{"in.veto.controlprogram", func(t *types.TxData, v []byte) { spendCommitmentOf(t.Inputs[1]).ControlProgram = v }},
+		{"in.veto.vote", func(t *types.TxData, v []byte) { t.Inputs[1].TypedInput.(*types.VetoInput).Vote = v }},
+		{"in.veto.statedata[1]", func(t *types.TxData, v []byte) { spendCommitmentOf(t.Inputs[1]).StateData = [][]byte{{9}, v} }},
+		{"in.issuance.program", func(t *types.TxData, v []byte) { c03SetIssuance(t, 2, func(ii *types.IssuanceInput) { ii.IssuanceProgram = v }) }},
+		{"in.issuance.nonce", func(t *types.TxData, v []byte) { c03SetIssuance(t, 2, func(ii *types.IssuanceInput) { ii.Nonce = v }) }},
+		{"in.issuance.assetdefinition", func(t *types.TxData, v []byte) { c03SetIssuance(t, 2, func(ii *types.IssuanceInput) { ii.AssetDefinition = v }) }},
+		{"in.coinbase.arbitrary", func(t *types.TxData, v []byte) { t.Inputs[3].TypedInput.(*types.CoinbaseInput).Arbitrary = v }},
+		{"out.original.controlprogram", func(t *types.TxData, v []byte) { t.Outputs[0].ControlProgram = v }},
+		{"out.original.statedata[0]", func(t *types.TxData, v []byte) { t.Outputs[0].StateData = [][]byte{v} }},
+		{"out.vote.controlprogram", func(t *types.TxData, v []byte) { t.Outputs[1].ControlProgram = v }},
+		{"out.vote.vote", func(t *types.TxData, v []byte) { t.Outputs[1].TypedOutput = &types.VoteOutput{Vote: v} }},
+		{"out.vote.statedata[1]", func(t *types.TxData, v []byte) { t.Outputs[1].StateData = [][]byte{{9}, v} }},
+	}
+}
+
+func c03StrBaseTx(g *codecGen) []byte {
+	t := &types.TxData{Version: 1, TimeRange: 99,
+		Inputs: []*types.TxInput{
+			types.NewSpendInput(nil, g.hash(), bc.AssetID(g.hash()), 5, 1, []byte{0x51}, nil),
+			types.NewVetoInput(nil, g.hash(), bc.AssetID(g.hash()), 6, 2, []byte{0x52}, []byte{7}, nil),
+			types.NewIssuanceInput([]byte{1}, 7, []byte{0x53}, nil, []byte{2}),
+			types.NewCoinbaseInput([]byte{3})},
+		Outputs: []*types.TxOutput{
+			types.NewOriginalTxOutput(bc.AssetID(g.hash()), 3, []byte{0x54}, nil),
+			types.NewVoteOutput(bc.AssetID(g.hash()), 4, []byte{0x55}, []byte{8}, nil)}}
+	text, _ := t.MarshalText()
+	return text
+}
+
+// through the wire format, then MapTx
+func c03WireID(t *types.TxData) (id bc.Hash, wire []byte, ok bool) {
+	defer func() {
+		if r := recover(); r != nil {
+			ok = false
+		}
+	}()
+	wire, err := t.MarshalText()
+	if err != nil {
+		return id, nil, false
+	}
+	back := &types.TxData{}
+	if err := back.UnmarshalText(wire); err != nil {
+		return id, wire, false
+	}
+	return txIDOf(back), wire, true
+}
+
+func c03StrOracle(c *Ctx, g *codecGen) {
+	base := c03StrBaseTx(g)
+	for _, f := range c03StrFields() {
+		for _, L := range c03StrLens {
+			v := g.bytesN(L)
+			if L > 0 {
+				v[0] = 0x51 // never an unspendable program
+			}
+			t := cloneTx(base)
+			f.set(t, v)
+			id0, wire0, ok := c03WireID(t)
+			if !ok {
+				failLimited(c, "strfield-does-not-roundtrip:"+f.name, fmt.Sprintf("len=%d", L))
+				continue
+			}
+			l, _ := c03TxLine(wire0)
+			c.Op("tx "+string(wire0), l)
+			c.Count("strmut:bases")
+			pos := map[string]int{"first": 0, "middle": L / 2, "last": L - 1}
+			for _, where := range []string{"first", "middle", "last"} {
+				if L == 0 || (where == "middle" && L < 3) || (where == "first" && L < 2) {
+					continue
+				}
+				w := append([]byte{}, v...)
+				w[pos[where]] ^= 0x04
+				t2 := cloneTx(base)
+				f.set(t2, w)
+				id1, wire1, ok := c03WireID(t2)
+				if !ok {
+					continue
+				}
+				if where == "last" {
+					l, _ := c03TxLine(wire1)
+					c.Op("tx "+string(wire1), l)
+				}
+				c.Count("strmut:checked")
+				if id1 == id0 {
+					failLimited(c, fmt.Sprintf("consensus-mutation-keeps-txid:%s:len=%d:flip=%s", f.name, L, where),
+						long(fmt.Sprintf("%s of %d bytes, byte %d flipped: both transactions decode, both have id %s; A=%s B=%s", f.name, L, pos[where], id0.String(), wire0, wire1)))
+				}
+			}
+		}
+	}
+}
+
 // c03AllKindsTx: a small transaction with a spend, a veto and an issuance input and two outputs,
 // swept with EVERY delta on EVERY integer field once per run
 func c03AllKindsTx(g *codecGen) []byte {
@@ -820,6 +938,7 @@ func runC03(c *Ctx) {
 		}
 	}
 	g := &codecGen{r: c.Rng, count: c.Count}
+	c03StrOracle(c, g)
 	// every integer field × every delta, once per run, on a transaction with all committed input kinds
 	{
 		text := c03AllKindsTx(g)
